@@ -175,6 +175,26 @@ pub fn run(tier: &str, seed: u64, outdir: &str) {
         }
     }
 
+    // ---- I (W3C issuer): the subject is a W3C credentialSubject; a boolean is not a credential value ----
+    let w3c_subjects: Vec<(&str, Value, Vec<&str>)> = vec![
+        ("exact", json!({"name": "Alex", "age": 28, "Zip Code": "007"}), vec!["name", "age", "Zip Code"]),
+        ("bool-claim-added", json!({"name": "Alex", "age": 28, "Zip Code": "007", "over18": true}), vec!["name", "age", "Zip Code", "over18"]),
+        ("bool-instead-of-value", json!({"name": "Alex", "age": true, "Zip Code": "007"}), vec!["name", "Zip Code"]),
+        ("missing-one", json!({"name": "Alex", "age": 28}), vec!["name", "age"]),
+    ];
+    for (vname, subj, names) in &w3c_subjects {
+        let q = &reqs[base];
+        let o = &offers[0];
+        let Ok(cs) = serde_json::from_value::<anoncreds::data_types::w3c::credential_attributes::CredentialSubject>(subj.clone()) else { continue };
+        let (res, _) = guarded!(w3c::issuer::create_credential(&cds[0].cred_def, &cds[0].cred_def_priv, &o.obj, &q.obj, cs, None, None));
+        let id = out.next_id();
+        out.case(
+            &format!("(C11 {} I (0 {}) {} {} {} {})", id, attrs_sx, offer_sx(o), req_sx(q), sx::list(names.iter(), |n| sx::s(n)), res),
+            &format!("issue-w3c:{}:{}", vname, res),
+            || json!({"op": "issue-w3c", "subject": subj, "impl": res}),
+        );
+    }
+
     // ---- P: processing ----
     let schemas: HashMap<_, _> = [(anoncreds::data_types::schema::SchemaId::new_unchecked(cds[0].schema_id.clone()), cds[0].schema.clone())].into_iter().collect();
     let cred_defs: HashMap<_, _> = (0..2).map(|k| (anoncreds::data_types::cred_def::CredentialDefinitionId::new_unchecked(cds[k].cred_def_id.clone()), cds[k].cred_def.try_clone().unwrap())).collect();
@@ -229,6 +249,9 @@ pub fn run(tier: &str, seed: u64, outdir: &str) {
             ("signature-of-another", Box::new(|d: &mut Value| { d["signature"] = serde_json::to_value(&other_cred.signature).unwrap(); }), true),
             ("value-removed", Box::new(|d: &mut Value| { d["values"].as_object_mut().unwrap().remove("age"); }), false),
             ("value-added", Box::new(|d: &mut Value| { d["values"]["height"] = json!({"raw": "1", "encoded": "1"}); }), false),
+            // applied to the W3C document only (the legacy run of these is the unaltered credential)
+            ("w3c-bool-claim-added", Box::new(|_d: &mut Value| {}), false),
+            ("w3c-foreign-anoncreds-proof-first", Box::new(|_d: &mut Value| {}), true),
         ];
         for (ename, edit, sig_altered) in &edits {
             for k in 0..2usize {
@@ -249,6 +272,9 @@ pub fn run(tier: &str, seed: u64, outdir: &str) {
                         }
                         let md: CredentialRequestMetadata = serde_json::from_value(mdoc).unwrap();
                         for w3c_form in [false, true] {
+                            if !w3c_form && ename.starts_with("w3c-") {
+                                continue;
+                            }
                             let mut doc = serde_json::to_value(cred).unwrap();
                             edit(&mut doc);
                             let Ok(mut c) = serde_json::from_value::<Credential>(doc) else { continue };
@@ -258,10 +284,30 @@ pub fn run(tier: &str, seed: u64, outdir: &str) {
                                 let v = if res == "ok" { Some(present_and_verify(&c, &links[l])) } else { None };
                                 (res, v, fed)
                             } else {
-                                let Ok(mut wc) = w3c::credential_conversion::credential_to_w3c(&c, &cds[k].issuer_id.as_str().try_into().unwrap(), None) else { continue };
+                                let Ok(wc0) = w3c::credential_conversion::credential_to_w3c(&c, &cds[k].issuer_id.as_str().try_into().unwrap(), None) else { continue };
+                                // W3C-only alterations of the document
+                                let mut wdoc = serde_json::to_value(&wc0).unwrap();
+                                match *ename {
+                                    "w3c-bool-claim-added" => {
+                                        wdoc["credentialSubject"]["over18"] = json!(true);
+                                    }
+                                    "w3c-foreign-anoncreds-proof-first" => {
+                                        let Ok(ow) = w3c::credential_conversion::credential_to_w3c(other_cred, &cds[k].issuer_id.as_str().try_into().unwrap(), None) else { continue };
+                                        let take = |v: &mut Value| match v["proof"].take() { Value::Array(mut a) => a.remove(0), x => x };
+                                        let mut od = serde_json::to_value(&ow).unwrap();
+                                        let foreign = take(&mut od);
+                                        let own = take(&mut wdoc);
+                                        wdoc["proof"] = json!([foreign, own]);
+                                    }
+                                    _ => {}
+                                }
+                                let Ok(mut wc) = serde_json::from_value::<W3CCredential>(wdoc) else { continue };
                                 // what the W3C form feeds to the CL layer: the subject re-encoded
-                                let Ok(c2) = w3c::credential_conversion::credential_from_w3c(&wc) else { continue };
-                                let fed = fed_sx(&c2);
+                                let fed = match w3c::credential_conversion::credential_from_w3c(&wc) {
+                                    Ok(c2) => fed_sx(&c2),
+                                    // a subject the conversion refuses is not the signed value set
+                                    Err(_) => format!("(({} {}))", sx::s("unencodable"), sx::s("x")),
+                                };
                                 let (res, _) = guarded!(w3c::prover::process_credential(&mut wc, &md, &links[l], &cds[k].cred_def, None));
                                 let v = if res == "ok" { Some(present_and_verify_w3c(&wc, &links[l])) } else { None };
                                 (res, v, fed)
